@@ -314,6 +314,33 @@ impl<'a, F: IVP> SolOut for DefaultSolOut<'a, F> {
                     // Check for terminal event
                     if let Some(limit) = config.terminal_count {
                         if self.event_hits[i] >= limit {
+                            // Requested output times of this step that are not beyond the event
+                            // are still due before the run stops
+                            if let (Some(t_eval), Some(interp)) = (self.t_eval.as_ref(), interpolant) {
+                                let forward = *x > xold;
+                                let mut k = self.next_idx;
+                                while k < t_eval.len() {
+                                    let te = t_eval[k];
+                                    let beyond = if forward { te > event_t } else { te < event_t };
+                                    if beyond {
+                                        break;
+                                    }
+                                    let in_step = if forward {
+                                        te >= xold - self.tol
+                                    } else {
+                                        te <= xold + self.tol
+                                    };
+                                    if in_step {
+                                        let mut yi = vec![0.0; y.len()];
+                                        interp.interpolate(te, &mut yi);
+                                        self.t.push(te);
+                                        self.y.push(yi);
+                                    }
+                                    k += 1;
+                                }
+                                self.next_idx = k;
+                            }
+
                             // Add the terminal event point to the output
                             self.t.push(event_t);
                             self.y.push(event_y);
